@@ -28,8 +28,8 @@ LEVEL_NOTE = "trusted: Python's int and fractions.Fraction"
 
 def runs(tier, seed):
     # 562 items per case
-    n = 1800 if tier == "quick" else 36000
-    return [Run("feefrac", cases=n, timeout=3000)]
+    n = 1800 if tier == "quick" else 27000  # 15M tuples (DESIGN planned 1e8; Python-bound, scaled to ~10 min on 16 idle cores)
+    return [Run("feefrac", cases=n, timeout=7000)]
 
 
 def _mag(v):
